@@ -354,6 +354,176 @@ for k_ in ("derTUINTDec", "derTBITDec", "derTOCTDec", "derTPSTRDec", "derTUINTDe
     SPEC[k_] = der_dec_spec(k_)
 
 
+# ------------------------------------------------------------------ DSTU point compression (abstract core)
+DSTU_P0 = bytes.fromhex("2004548c5c8874feaf01fff97dc23aa9937f862d079bfdc3ad2211b84a5f9d59c5972b8547399c4a2200")  # base point of curve 0 (no = 21)
+
+
+def _dstu_comp_fill(rng, sc, prep):
+    return {"p": DSTU_P0}
+
+
+def _dstu_rec_prepare(rng, sc):
+    ar = bytes(21) + b"\x00" * 3 + DSTU_P0
+    op = "dstuPointCompress %s 0 24 0 21" % ar.hex()
+
+    def extract(out):
+        ret, hx = out.split()
+        return {"xp": bytes.fromhex(hx)[:21]}
+    return op, extract
+
+
+SPEC["dstuPointCompress"] = dict(
+    args=[("p", "xp"), ("p", "p"), ("u", "i"), ("u", "no")],
+    bufs={"xp": ("out", lambda sc: sc["no"]), "p": ("in", lambda sc: 2 * sc["no"])},
+    primary=("xp", "p"), forbid=[], outs=[("dstuPointCompress.x", "xp")], outs_size={"dstuPointCompress.x": 1},
+    scal=lambda rng, tier: [{"i": 0, "no": 21}], fill=_dstu_comp_fill)
+SPEC["dstuPointRecover"] = dict(
+    args=[("p", "p"), ("p", "xp"), ("u", "i"), ("u", "no")],
+    bufs={"p": ("out", lambda sc: 2 * sc["no"]), "xp": ("in", lambda sc: sc["no"])},
+    primary=("p", "xp"), forbid=[], outs=[("dstuPointRecover.g", "p")],
+    scal=lambda rng, tier: [{"i": 0, "no": 21}], prepare=_dstu_rec_prepare)
+
+# ------------------------------------------------------------------ math headers: word arrays, same-or-disjoint patterns
+WB = 8          # octets per word in the op lines (64-bit words)
+
+
+def _wspec(args, bufs, primary, ret_word):
+    return dict(args=args, bufs=bufs, primary=primary, forbid=[], outs=[], concrete=True, word=True, ret_word=ret_word,
+                align8=set(bufs), scal=lambda rng, tier: [])
+
+
+def _n(sc):
+    return WB * sc["n"]
+
+
+MATH = {
+    # fn: (arg tokens, {buf: role}, out, inputs, scalars, returns a word)
+    "wwCopy": ("b a n", "b", ["a"], False), "wwXor": ("c a b n", "c", ["a", "b"], False), "wwXor2": ("b a n", "b", ["a"], False),
+    "zzAdd": ("c a b n", "c", ["a", "b"], True), "zzSub": ("c a b n", "c", ["a", "b"], True),
+    "zzAdd2": ("b a n", "b", ["a"], True), "zzSub2": ("b a n", "b", ["a"], True),
+    "zzAddW": ("b a n w", "b", ["a"], True), "zzSubW": ("b a n w", "b", ["a"], True), "zzNeg": ("b a n", "b", ["a"], False),
+    "zzMulW": ("b a n w", "b", ["a"], True), "zzAddMulW": ("b a n w", "b", ["a"], True), "zzSubMulW": ("b a n w", "b", ["a"], True),
+    "zzDivW": ("q a n w", "q", ["a"], True),
+    "zzAddMod": ("c a b mod n", "c", ["a", "b"], False), "zzSubMod": ("c a b mod n", "c", ["a", "b"], False),
+    "zzAddWMod": ("b a w mod n", "b", ["a"], False), "zzSubWMod": ("b a w mod n", "b", ["a"], False),
+    "zzNegMod": ("b a mod n", "b", ["a"], False), "zzDoubleMod": ("b a mod n", "b", ["a"], False), "zzHalfMod": ("b a mod n", "b", ["a"], False),
+    "ppMulW": ("b a n w", "b", ["a"], True), "ppAddMulW": ("b a n w", "b", ["a"], True),
+}
+INOUT = {"wwXor2", "zzAdd2", "zzSub2", "zzAddMulW", "zzSubMulW", "ppAddMulW"}
+for fn_, (toks, out, ins, rw) in MATH.items():
+    args = [("u", t) if t in ("n", "w") else ("p", t) for t in toks.split()]
+    bufs = {out: ("io" if fn_ in INOUT else "out", _n)}
+    for b_ in ins:
+        bufs[b_] = ("in", _n)
+    if "mod" in toks.split():
+        bufs["mod"] = ("in", _n)
+    SPEC[fn_] = _wspec(args, bufs, (out, ins[0]), rw)
+SPEC["zzAdd3"] = _wspec([("p", "c"), ("p", "a"), ("u", "n"), ("p", "b"), ("u", "k")],
+                        {"c": ("out", lambda sc: WB * max(sc["n"], sc["k"])), "a": ("in", lambda sc: WB * sc["n"]),
+                         "b": ("in", lambda sc: WB * sc["k"])}, ("c", "a"), True)
+
+BWORDS = [0, 1, 2, (1 << 64) - 1, (1 << 64) - 2, 1 << 63, (1 << 63) - 1, 0x8000000000000001]
+
+
+def rword(rng):
+    return rng.choice(BWORDS) if rng.random() < 0.4 else rng.getrandbits(64)
+
+
+def math_cases(rng, tier):
+    """same-or-disjoint placements of every math-header function: out == in1, out == in2, all the same, disjoint,
+       adjacent (out ends where an input starts and vice versa), inputs overlapping each other"""
+    cases = []
+    reps = 2 if tier == "quick" else 6
+    for fn, spec in SPEC.items():
+        if not spec.get("word"):
+            continue
+        bufs = list(spec["bufs"])
+        out = spec["primary"][0]
+        ins = [b for b in bufs if b != out and b != "mod"]
+        for n in ([1, 2, 3, 5] if tier == "quick" else [1, 2, 3, 4, 5, 8]):
+            ks = [n] if fn != "zzAdd3" else sorted(set([1, n, max(1, n - 1), n + 2]))
+            for k in ks:
+                sc = {"n": n}
+                if fn == "zzAdd3":
+                    sc["k"] = k
+                size = {b: spec["bufs"][b][1](sc) // WB for b in bufs}
+                pats = ["d", "adj1", "adj2", "o=i1"]
+                if len(ins) > 1:
+                    pats += ["o=i2", "all", "i1=i2", "i1~i2", "o=i1,i1~i2"]
+                for pat in pats:
+                    for _ in range(reps):
+                        base = 2
+                        addr = {}
+                        cur = base
+                        for b in bufs:            # disjoint layout first, one guard word between buffers
+                            addr[b] = cur
+                            cur += size[b] + 1
+                        if pat == "adj1":
+                            addr[ins[0]] = addr[out] + size[out]
+                            if len(ins) > 1:
+                                addr[ins[1]] = addr[ins[0]] + size[ins[0]]
+                            if "mod" in addr:
+                                addr["mod"] = addr[ins[-1]] + size[ins[-1]]
+                        elif pat == "adj2":
+                            addr[out] = addr[ins[0]] + size[ins[0]]
+                            if len(ins) > 1:
+                                addr[ins[1]] = addr[out] + size[out]
+                            if "mod" in addr:
+                                addr["mod"] = max(addr[x] + size[x] for x in [out] + ins)
+                        elif pat in ("o=i1", "o=i1,i1~i2"):
+                            addr[ins[0]] = addr[out]
+                        elif pat == "o=i2":
+                            addr[ins[1]] = addr[out]
+                        elif pat == "all":
+                            addr[ins[0]] = addr[ins[1]] = addr[out]
+                        elif pat == "i1=i2":
+                            addr[ins[1]] = addr[ins[0]]
+                        if pat == "i1~i2" and size[ins[0]] > 1:
+                            addr[ins[1]] = addr[ins[0]] + 1
+                            if "mod" in addr:
+                                addr["mod"] = addr[ins[1]] + size[ins[1]] + 1
+                        # inputs may overlap each other only when that does not make them overlap the output partially
+                        ok = True
+                        for b in ins:
+                            if addr[b] != addr[out] and intersects(addr[b], size[b], addr[out], size[out]):
+                                if not (fn == "zzAdd3" and addr[b] == addr[out]):
+                                    ok = False
+                        if "mod" in addr and intersects(addr["mod"], size["mod"], addr[out], size[out]):
+                            ok = False
+                        if not ok:
+                            continue
+                        end = max(addr[b] + size[b] for b in bufs) + 2
+                        words = [rword(rng) for _ in range(end)]
+                        if "mod" in addr:
+                            mv = [rword(rng) for _ in range(n)]
+                            mv[0] |= 1
+                            if mv[-1] == 0:
+                                mv[-1] = rng.getrandbits(64) | 1
+                            M = sum(v << (64 * i) for i, v in enumerate(mv))
+                            for i, v in enumerate(mv):
+                                words[addr["mod"] + i] = v
+                            done = set()
+                            for b in ins:
+                                if addr[b] in done:
+                                    continue
+                                done.add(addr[b])
+                                v = sum(words[addr[b] + i] << (64 * i) for i in range(n)) % M
+                                if rng.random() < 0.2:
+                                    v = rng.choice([0, 1, M - 1, M // 2])
+                                for i in range(n):
+                                    words[addr[b] + i] = (v >> (64 * i)) & ((1 << 64) - 1)
+                            sc["w"] = rng.choice([0, 1, rng.getrandbits(64) % M, (M - 1) & ((1 << 64) - 1) if n == 1 else (1 << 64) - 1]) % M
+                        elif any(t == ("u", "w") for t in spec["args"]):
+                            sc["w"] = rword(rng)
+                            if fn == "zzDivW" and sc["w"] == 0:
+                                sc["w"] = 3
+                        arena = b"".join(v.to_bytes(8, "little") for v in words)
+                        c = Case(fn, spec, dict(sc), {b: WB * addr[b] for b in bufs}, arena)
+                        c.off, c.aux = 0, "math:" + pat
+                        cases.append(c)
+    return cases
+
+
 # ------------------------------------------------------------------------------- placements
 def intersects(a, n, b, k):
     return n > 0 and k > 0 and a < b + k and b < a + n
@@ -389,7 +559,7 @@ class Case:
                 addr[b] = None
                 continue
             n = szf(self.sc)
-            al = 4 if b in self.spec.get("align4", ()) else (2 if b in self.spec.get("align2", ()) else 1)
+            al = 8 if b in self.spec.get("align8", ()) else 4 if b in self.spec.get("align4", ()) else (2 if b in self.spec.get("align2", ()) else 1)
             while len(ar) % al:
                 ar.append(0xa5)
             addr[b] = len(ar)
